@@ -1,4 +1,5 @@
 import PngVerif.Proofs.Basic
+import PngVerif.Props.C01Components
 /-!
 # C01 — Decoded pixels equal the PNG specification's reconstruction
 
